@@ -1,9 +1,10 @@
 """property id -> check function(prop, tier, replay) -> exit code"""
-from . import router, reg, selector
+from . import router, reg, selector, framing
 
 CHECKS = {
     "C01": router.run,
     "C02": router.run,
     "C16": reg.run,
+    "C17": framing.run,
     "C19": selector.run,
 }
